@@ -50,6 +50,7 @@ type FuncReport struct {
 	Ctx        *FnCtx
 	HasContract bool
 	Dropped     []string // positions of loop clauses that no longer bind (dropped for this run)
+	Imprecise   []string // contract-less repository callees that could not be handled exactly
 }
 
 // unboundLoopClause: does the error message point at a loop clause of the contract (by its file:line position)?
@@ -187,6 +188,7 @@ func (e *Engine) verifyFunc(fi *FuncInfo, sweep bool) *FuncReport {
 		rep.NoDec = append(rep.NoDec, k)
 	}
 	sort.Ints(rep.NoDec)
+	rep.Imprecise = c.imprecise
 	rep.MapRanges = c.mapRangeLoops
 	rep.Paths = c.pathsToReturn
 	return rep
@@ -478,6 +480,9 @@ func cmdAll(args []string) {
 		for _, d := range rep.Dropped {
 			fmt.Printf("DROPPED %s: loop clause at %s does not bind to the code\n", shortFuncKey(k), d)
 			bad++
+		}
+		for _, d := range rep.Imprecise {
+			fmt.Printf("IMPRECISE %s: calls %s (failing obligations of this function are undecided)\n", shortFuncKey(k), d)
 		}
 		for i, o := range rep.Obls {
 			jobs = append(jobs, &solveJob{name: o.Name, text: rep.Texts[i], cover: o.Cover})
